@@ -11,7 +11,7 @@ RULE = (
 )
 ASSUMPTIONS = [
     "faults are injected only where user code can run (the eight notification hooks); asynchronous exceptions inside an ATOMIC block are not injected",
-    "hooks do not mutate the tree re-entrantly",
+    "hooks mutate the tree re-entrantly only in three restricted, never-raising forms (a pre hook that detaches another child of its parent argument, a _pre_attach hook that first attaches another root to the same parent, and - assertion mode off - a _post_detach hook inside a children deletion that gives the old parent a new child)",
     "one forest is homogeneous in mixin family (NodeMixin-based classes mixed freely; LightNodeMixin-based separate)",
     "state is observed through the public parent/children properties only",
 ]
